@@ -90,37 +90,76 @@ def itModel (a : List String) : String :=
     | _, _ => "ERR:proto"
   | _ => "ERR:proto"
 
-/-! ### the abstract cursor, executable: `(v, incl)` -/
+/-! ### the abstract cursor, executable
 
-/-- smallest prime `>= n` below 2^64 -/
-def absNext (n : Nat) : Option Nat := (execFirstK n umax 1).head?
-/-- largest prime `<= n`, 0 if none: scan down window by window -/
-def absPrevLoop : Nat → Nat → Nat
-  | 0, _ => 0
-  | fuel + 1, n =>
-    if n < 2 then 0 else
-    let w := if n ≥ sieveCap then 4095 else 65535
-    let lo := n - min n w
-    match (pgPrimes execCore lo n).getLast? with
-    | some p => p
-    | none => if lo = 0 then 0 else absPrevLoop fuel (lo - 1)
-def absPrev (n : Nat) : Nat := absPrevLoop (n / 4096 + 2) n
+State: `cur` = the value at the cursor (none right after a jump), `ahead` = the next primes above it (increasing, consecutive,
+known up to `hiNext - 1`), `behind` = the primes below it (decreasing, consecutive, known down to `loNext + 1`; `loNext = none`
+= nothing below is left). Both lists are extended lazily from the proved oracle, 2048 primes / one window at a time. -/
 
-def itAbsRun : List String → Nat × Bool → List String → List String
+structure AbsSt where
+  cur : Option Nat
+  ahead : List Nat
+  hiNext : Nat
+  behind : List Nat
+  loNext : Option Nat
+
+def absFresh (s : Nat) : AbsSt := ⟨none, [], s, [], some s⟩
+
+/-- the primes `<= m`, next window downwards: (decreasing list, new `loNext`) -/
+def absDown : Nat → Nat → List Nat × Option Nat
+  | 0, _ => ([], none)
+  | fuel + 1, m =>
+    if m < 2 then ([], none) else
+    let w := if m ≥ sieveCap then 4095 else max 65535 (Nat.sqrt m)
+    let lo := m - min m w
+    let c := pgPrimes execCore lo m
+    if c.isEmpty then (if lo = 0 then ([], none) else absDown fuel (lo - 1))
+    else (c.reverse, if lo = 0 then none else some (lo - 1))
+
+def itAbsRun : List String → AbsSt → List String → List String
   | [], _, out => out.reverse
-  | t :: ts, (v, incl), out =>
+  | t :: ts, st, out =>
     if t == "n" then
-      let from_ := if incl then v else v + 1
-      match (if from_ > umax then none else absNext from_) with
-      | none => ("ERR:ps" :: out).reverse
-      | some p => itAbsRun ts (p, false) (toString p :: out)
+      let (ahead, hiNext) := if st.ahead.isEmpty then
+          (if st.hiNext > umax then ([], st.hiNext) else
+           let c := execFirstK st.hiNext umax 2048
+           (c, c.getLastD 0 + 1))
+        else (st.ahead, st.hiNext)
+      match ahead with
+      | [] => ("ERR:ps" :: out).reverse
+      | p :: rest =>
+        let behind := match st.cur with
+          | some c => if c = 0 then st.behind else c :: st.behind
+          | none => st.behind
+        -- right after a jump to `s` the primes below the cursor are those `<= s - 1` once the first prime `>= s` is taken:
+        -- `loNext = some s` may include `s` itself, which is `p` when `s` is prime
+        let loNext := match st.cur, st.loNext with
+          | none, some m => if m ≥ p then (if p = 0 then none else some (p - 1)) else some m
+          | _, l => l
+        itAbsRun ts ⟨some p, rest, hiNext, behind, loNext⟩ (toString p :: out)
     else if t == "p" then
-      let q := absPrev (if incl then v else v - 1)
-      itAbsRun ts (q, false) (toString q :: out)
-    else if t == "c" then itAbsRun ts (0, true) ("c" :: out)
+      let (behind, loNext) := if st.behind.isEmpty then
+          match st.loNext with
+          | none => ([], none)
+          | some m => absDown (m / 4096 + 2) m
+        else (st.behind, st.loNext)
+      let ahead := match st.cur with
+        | some c => if c = 0 then st.ahead else c :: st.ahead
+        | none => st.ahead
+      match behind with
+      | [] =>
+        -- nothing below: 0; right after a jump the primes above are those `>= s`, still described by `hiNext`
+        itAbsRun ts ⟨some 0, ahead, st.hiNext, [], none⟩ ("0" :: out)
+      | q :: rest =>
+        -- right after a jump to `s`: `hiNext = s` may include `s` itself, which is `q` when `s` is prime
+        let hiNext := match st.cur with
+          | none => if st.hiNext ≤ q then q + 1 else st.hiNext
+          | some _ => st.hiNext
+        itAbsRun ts ⟨some q, ahead, hiNext, rest, loNext⟩ (toString q :: out)
+    else if t == "c" then itAbsRun ts (absFresh 0) ("c" :: out)
     else match t.splitOn ":" with
       | ["j", a, _] => match itU64 a with
-        | some a => itAbsRun ts (a, true) ("j" :: out)
+        | some a => itAbsRun ts (absFresh a) ("j" :: out)
         | none => ("ERR:proto" :: out).reverse
       | _ => ("ERR:proto" :: out).reverse
 
@@ -128,7 +167,9 @@ def itAbs (a : List String) : String :=
   match a with
   | start :: _hint :: script =>
     match itU64 start with
-    | some start => " ".intercalate (itAbsRun (itExpand script) (start, true) [])
+    | some start =>
+      let r := itAbsRun (itExpand script) (absFresh start) []
+      if r.any (fun t => t == toString poison) then "ERR:model-bound" else " ".intercalate r
     | none => "ERR:proto"
   | _ => "ERR:proto"
 
